@@ -81,27 +81,21 @@ pub fn gen(rng: &mut Rng, kind: &str, size: &str, profile: &str) -> Scenario {
         "budget" => return gen_budget(rng, kind, size),
         "churn" => return gen_churn(rng, kind, size),
         "limit0" => return gen_limit0(rng, kind, size),
-        "panic" => {
-            // a mixed scenario in which one child panics in a poll and / or one child's destructor panics
+        "panic" | "dpanic" => {
+            // a mixed scenario in which one child panics in a poll ("panic") or one child's destructor panics ("dpanic")
             let mut sc = gen(rng, kind, size, "mix");
             let ids: Vec<u32> = sc.scripts.keys().copied().filter(|c| *c < 100_000).collect();
             if !ids.is_empty() {
-                if rng.pct(70) {
-                    let c = ids[rng.below(ids.len() as u64) as usize];
+                let c = ids[rng.below(ids.len() as u64) as usize];
+                if profile == "panic" {
                     let st = sc.scripts.get_mut(&c).unwrap();
                     let pos = rng.below(st.len() as u64 + 1) as usize;
                     st.insert(pos, Step { acts: vec![], resp: "!".into() });
-                }
-                if rng.pct(50) {
-                    let c = ids[rng.below(ids.len() as u64) as usize];
+                } else {
                     sc.drop_panic.push(c);
                 }
             }
             return sc;
-        }
-        "stale_big" => {
-            let n = 190 + rng.below(120) as u32;
-            return gen_stale_n(rng, kind, n);
         }
         _ => {}
     }
@@ -327,7 +321,8 @@ fn gen_starve(rng: &mut Rng, kind: &str, size: &str) -> Scenario {
     let vpos = rng.below(busy as u64 + 1) as u32;
     let total = busy + 1;
     let victim = vpos + 1;
-    let rounds = 40 + 6 * total as usize;
+    // more polls than the wait bound of the trace machine (3 * peak + 16), so that starvation cannot hide
+    let rounds = 3 * total as usize + 24;
     for c in 1..=total {
         if c == victim {
             // polled once (keeps its waker), woken later, then answers ready
